@@ -200,6 +200,18 @@ def r10_7(run, model):
                 n += 1
                 bt = S.norm_ws(run.facts.text(GOPP, arm["body"]["sp"]))
                 bare = re.fullmatch(r"RcDoc::as_string\(\*?value\)|RcDoc::text\(value\.to_string\(\)\)|RcDoc::text\(format!\(\"\{\}\",value\)\)", bt) is not None
+                # exactness: whatever prints the literal (the arm or a one-level helper) must not limit the precision
+                texts = [bt]
+                for c in S.calls(arm["body"]):
+                    g = model.opt_fn(S.callee_name(c) or "", GOPP)
+                    if g is not None and g.body is not None:
+                        texts.append(S.norm_ws(run.facts.text(GOPP, g.body["sp"])))
+                lossy = sorted({m_ for t in texts for m_ in re.findall(r"\{:?\.\d+e?\}|\{:e\}|asf32", t)})
+                run.ob("R10.7", f"{f.name}|float literals are printed exactly", not lossy, site(GOPP, arm["sp"]),
+                       f"precision-limiting formats in the float printer: {lossy or 'none'}",
+                       witness="1.7976931348623157e308 printed with {:.15e} is 1.797693134862316e308 (overflows); other literals come out one ulp off")
+                if len(texts) > 1 and not bare:
+                    bare = any(re.search(r"format!\(\"\{\}\",", t) or "to_string()" in t for t in texts[1:]) and not any(re.search(r"fract|\.0|\{:\?\}|contains\('\.'\)", t) for t in texts)
                 run.ob("R10.7", f"{f.name}|float literals keep a fractional form", not bare, site(GOPP, arm["sp"]),
                        f"Expr::Float is printed by `{bt[:70]}`" + (" (Display of f64 drops `.0`)" if bare else ""),
                        witness="let x: float64 = 7.0 / 2.0 is emitted as `var x float64 = 7 / 2`, which Go evaluates to 3")
@@ -227,6 +239,17 @@ def r10_8(run, model):
                 found = True
                 val = mm.group(1)
                 bare = re.fullmatch(r"compile_imm\(goenv,&?expr\)", val) is not None
+                # the predicate that selects literal operands for the conversion covers every numeric type
+                pred = [S.callee_name(c) for c in S.calls(arm["body"]) if re.search(r"numeric|literal_ty|is_num", S.callee_name(c) or "")]
+                if pred:
+                    pf = model.opt_fn(pred[0], GOC)
+                    if pf is not None and pf.body is not None:
+                        pt_ = S.norm_ws(run.facts.text(GOC, pf.body["sp"]))
+                        want = ["TInt8", "TInt16", "TInt32", "TInt64", "TUint8", "TUint16", "TUint32", "TUint64", "TFloat32", "TFloat64"]
+                        missing = [w for w in want if not re.search(r"\b" + w + r"\b", pt_)]
+                        run.ob("R10.8", f"{pred[0]}|every numeric literal type gets the conversion", not missing, site(GOC, pf.node["sp"]),
+                               f"numeric types not covered: {missing or 'none'}",
+                               witness="let d: dyn T = 3.0 emits data: 3 (the printer drops `.0`): Go types it int and self.(float64) panics")
                 run.ob("R10.8", "compile_cexpr|EToDyn data keeps the operand's type", not bare, site(GOC, sl["sp"]),
                        f"data: {val}" + (" (a literal operand becomes an untyped Go constant)" if bare else ""),
                        witness="fn pr(d: dyn Show) ..; pr(7) emits dyn__Show{data: 7, ..}; the wrapper does self.(int32) on a Go int: run-time panic")
